@@ -174,6 +174,12 @@ def _gen_seq(rng, thorough):
         seq.append([float(x) for x in g])
     nz = int(rng.integers(0, 8))
     zetas = [float(x) for x in rng.random(nz)]
+    if nz and rng.random() < 0.3:
+        # thresholds that are exactly 0.0 (legal, and what Generator.uniform can return): an attempt at the first step with a
+        # positive total rate, none on a zero-rate step
+        zetas[0] = 0.0
+        if nz > 2:
+            zetas[int(rng.integers(1, nz))] = 0.0
     if regime == "large" and rng.random() < 0.5:
         zetas = [float(x) for x in rng.random(nz) * 0.2]      # many successive hops
     if regime in ("tiny-thr", "tiny-stretch"):
